@@ -27,6 +27,11 @@ TAILS = [0.5, 1.0, 3.0, 30.0, 1e3]
 PSCALES = ["zero", 0.3, 1.0, 3.0, "extreme", "huge"]
 
 
+# boxes whose ends are not single-precision numbers and are not symmetric about the origin: anything that normalises the inputs
+# before comparing them with the box (or compares in another precision) misjudges an input sitting exactly on an end
+ASYM_BOXES = [[-0.3, 0.6, -0.3, 0.6], [0.1, 0.3, 0.0, 1.0], [0.1, 0.7, 0.1, 0.7], [-1.2, 0.9, -0.7, 1.1]]
+
+
 def gen_cases(tier, seed):
     cases = []
     nrep = 1 if tier == "quick" else 6
@@ -44,6 +49,11 @@ def gen_cases(tier, seed):
                     K = [2, 5, 8, 10][(bi + pi + rep) % 4]
                     cases.append({"family": fam, "box": bx, "bins": K, "pscale": ps, "world": "f32" if (bi + pi) % 3 else "f64",
                                   "seed": env.subseed(seed, "c09far", fam, bi, pi, rep), "tier_": tier, "cost": 1})
+            for bi, bx in enumerate(ASYM_BOXES):
+                for pi, ps in enumerate((0.0, 1.0, 3.0)):
+                    K = [1, 3, 8, 10][(bi + pi + rep) % 4]
+                    cases.append({"family": fam, "box": bx, "bins": K, "pscale": ps, "world": "f64" if (bi + pi) % 3 == 2 else "f32",
+                                  "seed": env.subseed(seed, "c09asym", fam, bi, pi, rep), "tier_": tier, "cost": 1})
             for ti, B in enumerate(TAILS):
                 for pi, ps in enumerate(PSCALES):
                     K = [1, 2, 3, 5, 8, 10, 4][(ti + pi + rep) % 7]
